@@ -36,7 +36,7 @@ def sh(cmd, cwd=None, timeout=None, env=None):
 
 def main():
     a = sys.argv[1:]
-    j, surv, outp, every, only, second = 8, "/tmp/mut/surv", "/tmp/mut/kill.tsv", False, None, None
+    j, surv, outp, every, only, second, forced = 8, "/tmp/mut/surv", "/tmp/mut/kill.tsv", False, None, None, None
     while a:
         x = a.pop(0)
         if x == "-j":
@@ -49,6 +49,9 @@ def main():
             every = True
         elif x == "--only":
             only = set(a.pop(0).split(","))
+        elif x == "--checks":
+            # run exactly these checks (e.g. to re-run strengthened checks on earlier survivors)
+            forced = a.pop(0).split(",")
         elif x == "--second":
             # second pass: survivors of a first pass (its result file), remaining checks only
             second = a.pop(0)
@@ -113,6 +116,8 @@ def main():
                     order += [c for c in ALL if c not in order]
                 if second:
                     order = [c for c in ALL if c not in already.get(name, ())]
+                if forced:
+                    order = forced
                 for c in order:
                     shutil.rmtree(verif + "/replays", ignore_errors=True)
                     try:
